@@ -145,10 +145,12 @@ class C11(Prop):
         if late:
           c = cr["c"]
           same_instant = len(late) == 1 and abs(late[0]["now"] - cr["now"]) < 1e-12
-          if c["form"] != "same":
-            bucket = "C11:equal-not-identical-argument"
-          elif same_instant:
+          if same_instant:
+            # one stray post at the very instant of the cancel: the check-then-post window,
+            # whatever form the argument had
             bucket = "C11:check-then-post-window"
+          elif c["form"] != "same":
+            bucket = "C11:equal-not-identical-argument"
           else:
             bucket = "C11:keeps-posting"
           if self.violation(stats, "source %d (%s every %s) was cancelled by cancel_%s(%s form) which returned at "
